@@ -1,4 +1,4 @@
 #!/bin/sh
 # Build Coq targets under the shared lock:  tools/coqmake.sh Props/C16.vo [more targets]
 mkdir -p /verif/.cache
-exec flock /verif/.cache/coq.lock sh -c '/verif/tools/coqproject.sh && python3 /verif/tools/gen_consts.py && cd /verif/coq && timeout 1500 make -j4 "$@" 2>&1 | tail -60' coqmake "$@"
+exec flock /verif/.cache/coq.lock sh -c '/verif/tools/coqproject.sh && python3 /verif/tools/gen_consts.py && cd /verif/coq && timeout 1500 make -j16 "$@" 2>&1 | tail -60' coqmake "$@"
